@@ -176,7 +176,7 @@ def setup_config(
     l_1 = config["simulation"]["tis_set"].get("lambda_minus_one", False)
     config["simulation"]["tis_set"]["lambda_minus_one"] = l_1
 
-    if quantis and not has_ens_engs:
+    if quantis and not has_ens_engs and ens_engs:
         config["simulation"]["ensemble_engines"][0] = ["engine0"]
     accept_all = config["simulation"]["tis_set"].get("accept_all", False)
     config["simulation"]["tis_set"]["accept_all"] = accept_all
